@@ -270,8 +270,9 @@ func (s *c5state) checkSerializable(t *c5tx) []c5violation {
 
 // c5classify: model-independent description of WHY the validation could not have caught it
 func c5classify(t *c5tx, i int, st c5step) string {
-	// (1) early return in checkPreconditions: an earlier-acquired snapshot is fresh and written (Ts() > lastPre)
-	//     while the snapshot serving this read was acquired later and is stale
+	// (1) early return in checkPreconditions (DESIGN K8, repaired: `continue`; the classification stays armed):
+	//     an earlier-acquired snapshot is fresh and written (Ts() > lastPre) while the snapshot serving this read
+	//     was acquired later and is stale
 	my := -1
 	for j, p := range t.SnapPfx {
 		if bytes.HasPrefix(st.Op.snapKey(), p) {
